@@ -1,5 +1,4 @@
-INIT InitFamily
-NEXT Next
+SPECIFICATION Spec
 CONSTANTS
   Wide = FALSE
 INVARIANT NumLaws
